@@ -222,6 +222,19 @@ def check(ctx, src):
             continue
         doc = d.items[3]
         kv = {doc.items[i].val: doc.items[i + 1] for i in range(1, len(doc.items) - 1, 2) if doc.items[i].kind == "kw"}
+        # the one-argument case of the rest-parameter operators whose unary case is the argument itself: the body, evaluated
+        # for exactly one argument, is that argument (get args 0) - not a fold that combines it with an identity element
+        if want == "x" and name in ("*", "&", "|", "and", "or"):
+            ll_ = d.items[2]
+            rest_ = next((ll_.items[i_ + 1].val for i_ in range(len(ll_.items) - 1) if ll_.items[i_].is_sym("#*")), None) or \
+                next((x_.items[1].val for x_ in ll_.items if x_.kind == "expr" and x_.head() == "unpack-iterable" and len(x_.items) == 2), None)
+            positional = [x_ for x_ in ll_.items if x_.kind == "sym" and x_.val not in ("#*", rest_)]
+            if rest_ and not positional:
+                one = hysexp.value_for_count(d.items[-1], rest_, 1)
+                verdict_u = None if one is None else (True if one.src() in (f"(get {rest_} 0)", f"(. {rest_} [0])", f"(next (iter {rest_}))") else
+                                                      (False if one.kind == "expr" and one.head() in ("reduce", "functools.reduce") and len(one.items) == 4 and one.items[2].is_sym(rest_) else None))
+                ctx.decide("T-IDENT", f"{name}|unary pyops body", verdict_u, f"hy.pyops.{name} with one argument evaluates `{one.src() if one else None}`; it must return the argument itself, as the macro does",
+                           PY, d.line, witness=f"(hy.pyops.{name} x) for a set / None / bool x raises or changes the type", detail="(get args 0)", robust=True)
         ctx.check("unary" in kv and kv["unary"].val == want, "T-IDENT", f"{name}|unary doc", f"documented unary case of `{name}` is {kv['unary'].val if 'unary' in kv else None}, the macro implements `{want}`", PY, d.line, detail=want)
     # --- augmented assignment
     ag = comp.rm.func("compile_augassign_expression")
